@@ -1,6 +1,206 @@
-//! STARK half of C04 (transcript model conformance for starky proofs).
+//! STARK half of C04: transcript-model conformance for starky proofs.
+//!
+//! Model (absorb / DRAW): public inputs -> config (security bits, challenge count, FRI config) ->
+//! trace cap -> [DRAW lookup challenges] -> auxiliary cap -> (internal: alphas', simulated
+//! evaluations, zeta', constraint values) -> DRAW alphas -> quotient cap -> DRAW zeta -> openings ->
+//! DRAW fri_alpha -> (commit cap_i, DRAW beta_i)* -> final polynomial -> pow witness ->
+//! DRAW pow response -> DRAW query indices.
+
+use plonky2::field::extension::FieldExtension;
+use plonky2::iop::challenger::Challenger;
+use starky::config::StarkConfig;
+use starky::proof::StarkProofChallenges;
+
+use crate::c04::conform;
 use crate::core::*;
+use crate::starkm::{self, Cfg, Def, Member, ProveOutcome, Proof};
+use crate::tamper::*;
+use crate::with_model_stark;
+
+type SF = starkm::F;
+const SD: usize = starkm::D;
+
+/// stage 0: lookup challenges (may be empty); 1: alphas; 2: zeta; 3: fri_alpha; 4+i: beta_i;
+/// then pow response; then the query index vector.
+fn stages(ch: &StarkProofChallenges<SF, SD>) -> Vec<Vec<u64>> {
+    use plonky2::field::types::PrimeField64;
+    let cu = |x: SF| x.to_canonical_u64();
+    let e = |x: &<SF as plonky2::field::extension::Extendable<SD>>::Extension| -> Vec<u64> {
+        <_ as FieldExtension<SD>>::to_basefield_array(x).iter().map(|c| cu(*c)).collect()
+    };
+    let mut out = Vec::new();
+    out.push(match &ch.lookup_challenge_set {
+        Some(s) => s.challenges.iter().flat_map(|c| [cu(c.beta), cu(c.gamma)]).collect(),
+        None => vec![],
+    });
+    out.push(ch.stark_alphas.iter().map(|x| cu(*x)).collect());
+    out.push(e(&ch.stark_zeta));
+    out.push(e(&ch.fri_challenges.fri_alpha));
+    for b in &ch.fri_challenges.fri_betas {
+        out.push(e(b));
+    }
+    out.push(vec![cu(ch.fri_challenges.fri_pow_response)]);
+    out.push(ch.fri_challenges.fri_query_indices.iter().map(|x| *x as u64).collect());
+    out
+}
+
+fn model_stage(path: &str, n_betas: usize) -> Option<usize> {
+    if path.starts_with(".public_inputs") || path.starts_with(".proof.trace_cap") {
+        return Some(0);
+    }
+    if path.starts_with(".proof.auxiliary_polys_cap") {
+        return Some(1);
+    }
+    if path.starts_with(".proof.quotient_polys_cap") {
+        return Some(2);
+    }
+    if path.starts_with(".proof.openings") {
+        return Some(3);
+    }
+    if let Some(rest) = path.strip_prefix(".proof.opening_proof.commit_phase_merkle_caps[") {
+        let i: usize = rest.split(']').next().unwrap().parse().unwrap();
+        return Some(4 + i);
+    }
+    if path.starts_with(".proof.opening_proof.final_poly") || path.starts_with(".proof.opening_proof.pow_witness") {
+        return Some(4 + n_betas);
+    }
+    None
+}
+
+fn challenges(def: &Def, cfg: &StarkConfig, p: &Proof) -> Result<Vec<Vec<u64>>, String> {
+    let r = guarded(|| {
+        with_model_stark!(def, S, {
+            let mut ch = Challenger::new();
+            p.get_challenges(&S::new(def), &mut ch, None, None, false, cfg, None)
+        })
+    });
+    match r {
+        Ok(c) => Ok(stages(&c)),
+        Err(p) => Err(format!("panic: {p}")),
+    }
+}
+
+fn subject(ctx: &Ctx, m: &Member, cfg: &Cfg, k: usize) {
+    let def = &m.def;
+    let sc = cfg.stark_config();
+    let (rows, pis) = m.trace(1 << k, 0);
+    let name = format!("stark:{}@{}k{}", def.name, cfg.tag(), k);
+    let proof = match starkm::prove_def(def, &sc, &rows, &pis, false) {
+        ProveOutcome::Proof(p) => *p,
+        _ => {
+            ctx.machinery_error(format!("{name}: honest STARK proof failed"));
+            return;
+        }
+    };
+    match starkm::verify_def(def, &sc, proof.clone()) {
+        starkm::Verdict::Accepted => {}
+        starkm::Verdict::Rejected(e) | starkm::Verdict::Panicked(e) => {
+            ctx.violation("stark:honest-rejected", format!("{name} honest"), format!("honest STARK proof rejected: {e}"));
+            return;
+        }
+    }
+    let base = match challenges(def, &sc, &proof) {
+        Ok(b) => b,
+        Err(e) => {
+            ctx.machinery_error(format!("{name}: get_challenges on the honest proof: {e}"));
+            return;
+        }
+    };
+    let n_betas = proof.proof.opening_proof.commit_phase_merkle_caps.len();
+    let n_st = base.len();
+    let mut vec_like: Vec<usize> = vec![2, 3, n_st - 1];
+    vec_like.extend(4..4 + n_betas);
+    ctx.state(n_st as u64);
+    let j = serde_json::to_value(&proof).unwrap();
+    let sh = shape(&j);
+    // if there are no lookup challenges, stage 0 is empty: a component "before stage 0" then first
+    // affects stage 1 — conform() handles empty groups (nothing to compare).
+    par_for_chunk(sh.leaves.len(), 32, |li| {
+        let path = &sh.leaves[li];
+        let ps = path_str(path);
+        let first = model_stage(&ps, n_betas);
+        let case = format!("{name} component {ps}");
+        let site = format!("stark:{}", match first { Some(_) => path_kind(path), None => "non-transcript".into() });
+        ctx.case(&site, &case, || {
+            let Some((t, changed)) = mutate_leaf(&j, path, LeafMut::Add1) else { return Ok(String::new()) };
+            if !changed {
+                return Ok(String::new());
+            }
+            let Ok(p) = serde_json::from_value::<Proof>(t) else { return Ok("not-constructible".into()) };
+            let new = challenges(def, &sc, &p)?;
+            ctx.transition(1);
+            conform(&base, &new, first, &vec_like)?;
+            ctx.trace(1);
+            Ok(format!("stark:{}:first-stage-{:?}", path_kind(path), first.map(|f| f.min(4))))
+        });
+    });
+    // statement parameters
+    let edits: Vec<(&str, Box<dyn Fn(&mut StarkConfig)>)> = vec![
+        ("security_bits", Box::new(|c| c.security_bits += 1)),
+        ("num_challenges", Box::new(|c| c.num_challenges += 1)),
+        ("rate_bits", Box::new(|c| c.fri_config.rate_bits += 1)),
+        ("cap_height", Box::new(|c| c.fri_config.cap_height += 1)),
+        ("proof_of_work_bits", Box::new(|c| c.fri_config.proof_of_work_bits += 1)),
+        ("num_query_rounds", Box::new(|c| c.fri_config.num_query_rounds += 1)),
+        ("reduction_strategy", Box::new(|c| {
+            use plonky2::fri::reduction_strategies::FriReductionStrategy as S;
+            c.fri_config.reduction_strategy = match &c.fri_config.reduction_strategy {
+                S::ConstantArityBits(a, b) => S::ConstantArityBits(*a, b + 1),
+                S::Fixed(v) => {
+                    let mut v = v.clone();
+                    v.push(1);
+                    S::Fixed(v)
+                }
+                S::MinSize(o) => S::MinSize(Some(o.unwrap_or(0) + 1)),
+            }
+        })),
+    ];
+    for (what, f) in edits {
+        let case = format!("{name} component statement.{what}");
+        ctx.case(&format!("stark:statement.{what}"), &case, || {
+            let mut c2 = sc.clone();
+            f(&mut c2);
+            let new = match challenges(def, &c2, &proof) {
+                Ok(n) => n,
+                // a changed rate / cap can make recover_degree_bits or the shape arithmetic fail: then
+                // no challenges are produced at all, which is not an acceptance
+                Err(_) => return Ok(format!("stark:statement.{what}:no-challenges")),
+            };
+            ctx.transition(1);
+            conform(&base, &new, Some(0), &vec_like)?;
+            ctx.trace(1);
+            Ok(format!("stark:statement.{what}:first-stage-0"))
+        });
+    }
+}
 
 pub fn run_stark(ctx: &Ctx) {
-    ctx.note("STARK transcript half not built yet in this snapshot");
+    let thorough = ctx.tier.thorough();
+    let fam = starkm::family();
+    let lfam = starkm::lookup_family();
+    let pick = |v: &Vec<Member>, name: &str| v.iter().find(|m| m.def.name.starts_with(name)).cloned();
+    let mut subjects: Vec<(Member, Cfg, usize)> = Vec::new();
+    let base_cfg = |ch: usize, arity: starkm::Arity| Cfg { rate_bits: 2, cap_height: 1, num_challenges: ch, queries: 8, pow_bits: 3, arity };
+    // a member with public inputs and no lookups; one with lookups; multi-step FRI schedules
+    let mut names: Vec<String> = fam.iter().map(|m| m.def.name.clone()).collect();
+    names.extend(lfam.iter().map(|m| m.def.name.clone()));
+    ctx.note(format!("stark families available: {}", names.len()));
+    let plain: Vec<Member> = fam.iter().filter(|m| m.def.pis > 0 && m.def.degree >= 1 && m.def.degree <= 3).take(if thorough { 4 } else { 2 }).cloned().collect();
+    for (i, m) in plain.iter().enumerate() {
+        subjects.push((m.clone(), base_cfg(1 + i % 2, starkm::Arity::Ones(2)), 4));
+    }
+    let looks: Vec<Member> = lfam.iter().filter(|m| m.def.degree <= 3).take(if thorough { 3 } else { 1 }).cloned().collect();
+    for m in looks {
+        subjects.push((m, base_cfg(2, starkm::Arity::Constant(1, 1)), 4));
+    }
+    let _ = pick;
+    for (m, cfg, k) in &subjects {
+        // rate must admit the constraint degree
+        let mut cfg = cfg.clone();
+        while (1usize << cfg.rate_bits) + 1 < m.def.degree.max(1) {
+            cfg.rate_bits += 1;
+        }
+        subject(ctx, m, &cfg, *k);
+    }
+    ctx.count("stark_subjects", subjects.len() as u64);
 }
